@@ -285,8 +285,9 @@ SWEEP_DEVICES = {
 SWEEP_OPS = ["Bp", "Bs", "Bd", "Ca", "Cb", "Cs", "P"]
 
 
-def _bundle(stream, devs, run=None):
-    return [M("create", None, name=stream, run=run)] + [M("read", d, run=run) for d in devs] + [M("save", run=run)]
+def _bundle(stream, devs, run=None, drop=False):
+    # drop=True: the objects are read (which caches their configuration) but no event / descriptor is made
+    return [M("create", None, name=stream, run=run)] + [M("read", d, run=run) for d in devs] + [M("drop" if drop else "save", run=run)]
 
 
 def sweep_cases(maxlen, minlen=0):
@@ -379,7 +380,7 @@ def strategy():
                 if a < 6:
                     names = ["primary", "primary", "s2"] + (["decl", "decl"] if r["declared"] else [])
                     s = draw(st.sampled_from(names))
-                    for n in _bundle(s, r["tmpl"][s], run=k):
+                    for n in _bundle(s, r["tmpl"][s], run=k, drop=draw(st.integers(0, 4)) == 0):
                         add(n)
                 elif a < 10:
                     used = [d for rr in runs.values() for t in rr["tmpl"].values() for d in t] + [sg for rr in runs.values() for sg in rr["monitored"]]
